@@ -430,7 +430,9 @@ class LifeHarness:
                 base += ["eof", "rst"] + (["etimedout"] if self.etimedout else [])
                 if w.armed is None:
                     base += list(self.faults)
-        if w.loop.next_timer_at() is not None and w.loop.next_timer_at() <= w.loop.time() + self.horizon:
+        # "let time pass until the next timer": also when that timer is far beyond every documented bound (but not the disabled
+        # keepalive at 1e6 s) - an operation that only ends then is late, and must be seen to be
+        if w.loop.next_timer_at() is not None and w.loop.next_timer_at() <= w.loop.time() + max(self.horizon, 5000.0):
             base.append("time")
         out = list(base)
         if self.nd:
